@@ -13,6 +13,46 @@ static READS: AtomicU64 = AtomicU64::new(0);
 /// When non-zero only this thread (gettid) sees the virtual clock; every other thread gets real time.
 static ONLY_TID: AtomicI64 = AtomicI64::new(0);
 
+/// While set (and the virtual clock is on), a sleep of a thread that sees the virtual clock does not wait:
+/// it moves both virtual clocks on by the time asked for - time passes while a caller sleeps.
+static SLEEP_ADVANCES: AtomicBool = AtomicBool::new(false);
+pub fn sleep_advances(on: bool) {
+    SLEEP_ADVANCES.store(on, SeqCst);
+}
+fn virtual_here() -> bool {
+    if !ON.load(SeqCst) || !SLEEP_ADVANCES.load(SeqCst) {
+        return false;
+    }
+    let only = ONLY_TID.load(SeqCst);
+    only == 0 || only == gettid()
+}
+
+/// `nanosleep` / `clock_nanosleep` as std::thread::sleep (and anything else linked into this binary) calls them
+#[no_mangle]
+pub unsafe extern "C" fn nanosleep(req: *const libc::timespec, rem: *mut libc::timespec) -> libc::c_int {
+    if !virtual_here() {
+        return libc::syscall(libc::SYS_nanosleep, req, rem) as libc::c_int;
+    }
+    advance(((*req).tv_sec as i64).saturating_mul(1_000_000_000).saturating_add((*req).tv_nsec as i64).max(0));
+    0
+}
+#[no_mangle]
+pub unsafe extern "C" fn clock_nanosleep(clk: libc::clockid_t, flags: libc::c_int, req: *const libc::timespec, rem: *mut libc::timespec) -> libc::c_int {
+    if !virtual_here() {
+        let r = libc::syscall(libc::SYS_clock_nanosleep, clk as libc::c_long, flags as libc::c_long, req, rem);
+        return if r == 0 { 0 } else { *libc::__errno_location() };
+    }
+    let want = ((*req).tv_sec as i64).saturating_mul(1_000_000_000).saturating_add((*req).tv_nsec as i64);
+    let ns = if flags & libc::TIMER_ABSTIME != 0 {
+        let (s, n) = if is_mono(clk) { get_mono() } else { get_real() };
+        want.saturating_sub(s.saturating_mul(1_000_000_000).saturating_add(n))
+    } else {
+        want
+    };
+    advance(ns.max(0));
+    0
+}
+
 pub fn gettid() -> i64 {
     unsafe { libc::syscall(libc::SYS_gettid) as i64 }
 }
